@@ -40,6 +40,13 @@ def check(run):
                       'constraints discovered from a file verify against that file: the calculator both sides share never reads a '
                       'categorical column\'s declared levels (parquet keeps unused categories)')
     run.floor('C17-OBSERVED', n, 15)
+    # tdda discover f f.tdda; tdda verify f f.tdda: the bounds written are met exactly, and the default comparators accept `a == b`
+    # whatever the float fuzz does to b (integers beyond 2**53)
+    from .c02 import fuzz_shape
+    run.rule('C17-ROUNDTRIP', 'constraints discovered from a file verify against that file: the default (fuzzy) min/max comparators, evaluated '
+                              'on a grid of values, tolerances and integers beyond 2**53, are `a OP b` exactly or `a OP fuzz(b, epsilon)` - '
+                              'the bound itself always passes')
+    run.attempt(fuzz_shape, run, p, 'C17-ROUNDTRIP')
     from .c01 import datelang
     run.attempt(datelang, run, p)
     run.rules['C17-DATELANG'] = run.rules.pop('C01-DATELANG') + ' (the command line always goes through a .tdda file)'
